@@ -219,10 +219,10 @@ Proof.
 Qed.
 
 (* every position computed for a token lies inside the input *)
-Theorem linecol_bounds input off :
+Theorem linecol_bounds input (off : Z) :
   let '(l, c) := linecol input off in 1 <= l <= 1 + Z.of_nat (count_lf input) /\ 1 <= c.
 Proof.
-  unfold linecol. pose proof (count_lf_firstn input off). split; lia.
+  unfold linecol. pose proof (count_lf_firstn input (Z.to_nat off)). split; lia.
 Qed.
 
 (* ---------- C08: whitespace between tokens ---------- *)
@@ -238,13 +238,13 @@ Proof. intro H. destruct (ws_cases b H) as [E|[E|[E|E]]]; subst b; reflexivity. 
 
 (* one white-space byte before anything is skipped, in both states *)
 Lemma lex_skip_ws alnum f st b s off : is_ws b = true ->
-  lex_from alnum (S f) st (b :: s) off = lex_from alnum f st s (off + 1)%nat.
+  lex_from alnum (S f) st (b :: s) off = lex_from alnum f st s (off + 1).
 Proof.
   intro H. destruct (ws_cases b H) as [E|[E|[E|E]]]; subst b; (destruct st; [reflexivity|destruct s as [|a [|c r]]; reflexivity]).
 Qed.
 
 Theorem lex_skip_whitespace alnum ws : Forall (fun b => is_ws b = true) ws ->
-  forall f st s off, lex_from alnum (length ws + f) st (ws ++ s) off = lex_from alnum f st s (off + length ws)%nat.
+  forall f st s off, lex_from alnum (length ws + f) st (ws ++ s) off = lex_from alnum f st s (off + Z.of_nat (length ws)).
 Proof.
   induction 1 as [|b ws Hb _ IH]; intros f st s off; [cbn; f_equal; lia|].
   cbn [length app Nat.add]. rewrite lex_skip_ws by exact Hb. rewrite IH. f_equal. lia.
